@@ -306,7 +306,17 @@ class StepOperationExecutor(OperationExecutor[T]):
             )
             else 0
         )
-        retry_decision: RetryDecision = retry_strategy(error, retry_attempt + 1)
+        try:
+            retry_decision: RetryDecision = retry_strategy(error, retry_attempt + 1)
+        except Exception:  # noqa: BLE001
+            # A strategy that fails cannot decide anything: the step's own failure is recorded and
+            # raised as final, instead of leaving the call without any terminal record.
+            logger.exception(
+                "Retry strategy failed for id: %s, name: %s. Not retrying.",
+                self.operation_identifier.operation_id,
+                self.operation_identifier.name,
+            )
+            retry_decision = RetryDecision.no_retry()
 
         if retry_decision.should_retry:
             logger.debug(
